@@ -1125,7 +1125,7 @@ func c42(sum *lib.Summary) {
 		Header:   "From Coq Require Import String.\nFrom CV Require Import C42.Cases.",
 		ElemType: "ccase",
 		CheckFn:  "check_ccase",
-		PerFile:  350,
+		PerFile:  220,
 	}
 	sum.Rule = "values with complete static types from the recursive type-directed generator and a fixed corpus, each encoded with the real CCF encoder in default and in deterministic mode " +
 		"(all three sort options): the output must be canonical CBOR (independent parser + re-serialiser); decoding (lenient decoder; strict decoder for the deterministic encoding) must give a value " +
